@@ -927,6 +927,9 @@ pub enum ErrShape {
     SuperOutsideBlock { extending: bool },
     RequiredNotOverridden { depth: u8 },
     ImportCycle,
+    /// an inheritance cycle of n templates of which only those selected by the bit mask define a
+    /// block (0 = none does); the others only extend, set a variable or hold text
+    SparseInheritanceCycle { n: u8, with_block: u8, filler: u8 },
 }
 
 #[derive(Clone, Debug, Serialize, Deserialize, PartialEq, Eq, Hash)]
@@ -972,6 +975,24 @@ pub fn build_err(c: &ErrCase) -> BTreeMap<String, Vec<Stmt>> {
                     b.push(Stmt::Extends(s(&parent)));
                 }
                 b.push(blk("a", vec![text(format!("L{k}a"))]));
+                t.insert(tname(k), b);
+            }
+        }
+        ErrShape::SparseInheritanceCycle { n, with_block, filler } => {
+            let n = *n as usize;
+            for k in 0..n {
+                let parent = tname((k + 1) % n);
+                let mut b = vec![];
+                lead(&mut b);
+                b.push(Stmt::Extends(s(&parent)));
+                match filler % 3 {
+                    1 => b.push(Stmt::Set { target: Target::Name(format!("sv{k}")), value: s("x") }),
+                    2 => b.push(text(format!("filler{k}"))),
+                    _ => {}
+                }
+                if with_block & (1 << k) != 0 {
+                    b.push(blk("a", vec![text(format!("L{k}a"))]));
+                }
                 t.insert(tname(k), b);
             }
         }
@@ -1105,6 +1126,13 @@ fn all_err_cases() -> Vec<ErrCase> {
         }
         for in_block in [false, true] {
             shapes.push(ErrShape::IncludeCycle { n, in_block });
+        }
+    }
+    for n in 1..=4u8 {
+        for with_block in 0..(1u8 << n) - 1 {
+            for filler in 0..3u8 {
+                shapes.push(ErrShape::SparseInheritanceCycle { n, with_block, filler });
+            }
         }
     }
     shapes.push(ErrShape::IncludeOfChildFromParentBlock);
